@@ -616,9 +616,73 @@ func (e *Engine) indexAddr(f *frame, x *ssa.IndexAddr) Value {
 		if n <= 4096 && !isAggregate(arr.T.Underlying().(*types.Array).Elem()) && isScalarType(arr.T.Underlying().(*types.Array).Elem()) {
 			return Ptr{Arr: arr, Off: off, N: n, Idx: idx}
 		}
-		i = e.forkIndex(idx, n)
+		i = e.forkIndexIn(idx, n, arr, off)
 	}
 	return Ptr{Obj: e.sub(arr, off+i)}
+}
+
+// forkIndexIn case-splits a symbolic in-range index into arr[off:off+n]. Beyond 1024
+// cells only the cells written so far are split individually; the untouched (zero) cells
+// are represented by one feasible member (first, last or middle untouched cell, else a
+// solver model). This concretisation can only lose paths, never invent one; it is counted
+// in Report.Concretised and stated in the evidence.
+func (e *Engine) forkIndexIn(idx *smt.Term, n int, arr *Obj, off int) int {
+	if n <= 1024 {
+		return e.forkIndex(idx, n)
+	}
+	var ks []int
+	var conds []*smt.Term
+	rest := e.ctx.True
+	first, last := -1, -1
+	for k := 0; k < n; k++ {
+		if arr.Sub[off+k] != nil {
+			ks = append(ks, k)
+			c := e.ctx.Eq(idx, e.ctx.BV(uint64(k), idx.W))
+			conds = append(conds, c)
+			rest = e.ctx.And(rest, e.ctx.Not(c))
+		} else {
+			if first < 0 {
+				first = k
+			}
+			last = k
+		}
+	}
+	if first >= 0 {
+		if e.rep.Concretised == nil {
+			e.rep.Concretised = map[string]int{}
+		}
+		e.rep.Concretised[e.where()]++
+		rep := -1
+		for _, k := range []int{first, last, (first + last) / 2} {
+			if arr.Sub[off+k] != nil {
+				continue
+			}
+			r, _ := e.sol.CheckT(e.pc, e.ctx.Eq(idx, e.ctx.BV(uint64(k), idx.W)), nil, false, 3000)
+			if r == smt.Sat {
+				rep = k
+				break
+			}
+		}
+		if rep < 0 {
+			r, m := e.sol.Check(e.pc, rest, e.ndTerms, true)
+			if r == smt.Sat && m != nil {
+				rep = int(e.ctx.Eval(idx, m, map[int]uint64{}))
+				if rep < 0 || rep >= n || arr.Sub[off+rep] != nil {
+					rep = -1
+				}
+			} else if r == smt.Unknown {
+				e.unsupported("large symbolic index: no representative found (solver unknown)")
+			}
+		}
+		if rep >= 0 {
+			ks = append(ks, rep)
+			conds = append(conds, e.ctx.Eq(idx, e.ctx.BV(uint64(rep), idx.W)))
+		}
+	}
+	if len(conds) == 0 {
+		panic(abortPath{kind: "infeasible"})
+	}
+	return ks[e.choose(conds, false)]
 }
 
 // forkIndex case-splits a symbolic in-range index.
